@@ -398,4 +398,543 @@ theorem settled_shape (cfg : Cfg) (s : Stream) (e : Ev) (h : Settled s)
   | timeoutBack =>
     cases st <;> cases ph <;> simp_all [step, Stream.isLinked, setDefault, forceTerminate, Shape]
 
+/-! ### several streams: histories of a whole session -/
+
+theorem flush_pending (cfg : Cfg) (s : Stream) : (step cfg s .frontFlush).pending = false := by
+  cases hp : s.pending <;> simp [step, hp, apply_ite Stream.pending]
+
+/-- a stream is Idle only if it has always been -/
+theorem idle_back (cfg : Cfg) (s : Stream) (e : Ev) (h : (step cfg s e).st = .idle) : s.st = .idle := by
+  rcases s with ⟨st, att, fc, ph, bs, be, ka, kf, bc, pe, sr, oc⟩
+  rcases cfg with ⟨h2⟩
+  cases st with
+  | idle => rfl
+  | link =>
+    exfalso
+    cases e <;> simp [step, Stream.isLinked, setDefault] at h <;> (repeat' split at h) <;>
+      simp_all [setDefault]
+  | linked tok =>
+    exfalso
+    cases e <;> simp [step, Stream.isLinked, setDefault, forceTerminate, serverEndStream,
+      terminateCloseDelimited] at h <;> (repeat' split at h) <;> simp_all [setDefault, forceTerminate]
+  | unlinked =>
+    have := (step_unlinked ⟨h2⟩ ⟨.unlinked, att, fc, ph, bs, be, ka, kf, bc, pe, sr, oc⟩ e rfl).1
+    rw [this] at h; cases h
+
+/-- after "client took everything, front timer, client took everything" no stream keeps
+    the session open any more -/
+theorem quiet_after (cfg : Cfg) (s0 : Stream) (may : Bool) :
+    keepsOpen cfg (step cfg (step cfg (step cfg s0 .frontFlush) (.timeoutFront may)) .frontFlush)
+      = false := by
+  rcases s0 with ⟨st, att, fc, ph, bs, be, ka, kf, bc, pe, sr, oc⟩
+  rcases cfg with ⟨h2⟩
+  cases st <;> cases ph <;> cases pe <;> cases bc <;> cases may <;> cases h2 <;>
+    simp [keepsOpen, delivering, step, Stream.isLinked, setDefault, forceTerminate]
+
+/-- ... and one more expiry of the front timer gives every received request its outcome -/
+theorem live_after (cfg : Cfg) (s0 : Stream) (may : Bool) (hw : WF s0)
+    (hrecv : cfg.frontH2 = true → s0.st ≠ .idle) :
+    (step cfg (step cfg (step cfg (step cfg s0 .frontFlush) (.timeoutFront may)) .frontFlush)
+      (.timeoutFront true)).outcome.isSome = true := by
+  have hw2 := wf_step cfg _ (.timeoutFront may) (wf_step cfg s0 .frontFlush hw)
+  generalize hs2 : step cfg (step cfg s0 .frontFlush) (.timeoutFront may) = s2 at hw2
+  have hidle : s2.st = .idle → s0.st = .idle := by
+    intro h; rw [← hs2] at h
+    exact idle_back cfg _ _ (idle_back cfg _ _ h)
+  have hw3 := wf_step cfg s2 .frontFlush hw2
+  by_cases hu : (step cfg s2 .frontFlush).st = .unlinked
+  · rw [(step_unlinked cfg _ _ hu).2]; exact hw3.2 hu
+  · rcases flush_cases cfg s2 with ⟨h1, _, _⟩ | ⟨h1, h2, _⟩
+    · exact absurd h1 hu
+    · apply front_timer_terminal _ _ hu
+      · intro hc hi; rw [h1] at hi; exact hrecv hc (hidle hi)
+      · exact h2
+
+/-- whatever happens to a session, stream `i` just goes through some sequence of its own events -/
+theorem mux_step_get (cfg : Cfg) (m : Mux) (ev : MEv) (i : Nat) (s : Stream)
+    (h : m.streams[i]? = some s) :
+    ∃ es, (Mux.step cfg m ev).streams[i]? = some (run cfg s es) := by
+  cases ev with
+  | «at» j e =>
+    by_cases hj : j = i
+    · refine ⟨[e], ?_⟩; simp [Mux.step, List.getElem?_modify, hj, h, run]
+    · refine ⟨[], ?_⟩; simp [Mux.step, List.getElem?_modify, hj, h, run]
+  | backendHup tok =>
+    by_cases hl : s.isLinkedTo tok = true
+    · exact ⟨[.backHup], by simp [Mux.step, List.getElem?_map, h, hl, run]⟩
+    · exact ⟨[], by simp [Mux.step, List.getElem?_map, h, hl, run]⟩
+  | backendEof tok =>
+    by_cases hl : s.isLinkedTo tok = true
+    · exact ⟨[.backEof], by simp [Mux.step, List.getElem?_map, h, hl, run]⟩
+    · exact ⟨[], by simp [Mux.step, List.getElem?_map, h, hl, run]⟩
+  | backendTimeout tok =>
+    by_cases hl : s.isLinkedTo tok = true
+    · exact ⟨[.timeoutBack], by simp [Mux.step, List.getElem?_map, h, hl, run]⟩
+    · exact ⟨[], by simp [Mux.step, List.getElem?_map, h, hl, run]⟩
+  | frontTimeout => exact ⟨[.timeoutFront _], by simp [Mux.step, List.getElem?_map, h, run]; rfl⟩
+  | frontFlushAll => exact ⟨[.frontFlush], by simp [Mux.step, List.getElem?_map, h, run]⟩
+
+theorem mux_run_get (cfg : Cfg) (evs : List MEv) (m : Mux) (i : Nat) (s : Stream)
+    (h : m.streams[i]? = some s) :
+    ∃ es, (Mux.run cfg m evs).streams[i]? = some (run cfg s es) := by
+  induction evs generalizing m s with
+  | nil => exact ⟨[], by simpa [Mux.run, run] using h⟩
+  | cons ev evs ih =>
+    obtain ⟨es1, h1⟩ := mux_step_get cfg m ev i s h
+    obtain ⟨es2, h2⟩ := ih (Mux.step cfg m ev) (run cfg s es1) h1
+    exact ⟨es1 ++ es2, by rw [run_append]; simpa [Mux.run] using h2⟩
+
+theorem mux_run_append (cfg : Cfg) (m : Mux) (a b : List MEv) :
+    Mux.run cfg m (a ++ b) = Mux.run cfg (Mux.run cfg m a) b := by
+  simp [Mux.run, List.foldl_append]
+
+theorem mux_init_get (n i : Nat) (s : Stream) (h : (Mux.init n).streams[i]? = some s) :
+    s = Stream.init := by
+  simp [Mux.init, List.getElem?_replicate] at h
+  exact h.2.symm
+
+/-- the four events that end every received request of a session -/
+def settleEvents : List MEv := [.frontFlushAll, .frontTimeout, .frontFlushAll, .frontTimeout]
+
+theorem mux_settle_get (cfg : Cfg) (m : Mux) (i : Nat) (s : Stream) (h : m.streams[i]? = some s)
+    (hw : WF s) (hrecv : cfg.frontH2 = true → s.st ≠ .idle) :
+    ∃ s', (Mux.run cfg m settleEvents).streams[i]? = some s' ∧ s'.outcome.isSome = true := by
+  let m1 := Mux.step cfg m .frontFlushAll
+  let m2 := Mux.step cfg m1 .frontTimeout
+  let m3 := Mux.step cfg m2 .frontFlushAll
+  have hrun : Mux.run cfg m settleEvents = Mux.step cfg m3 .frontTimeout := rfl
+  let b1 := !(m1.streams.any (keepsOpen cfg))
+  have h3 : m3.streams = ((m.streams.map (step cfg · .frontFlush)).map
+      (step cfg · (.timeoutFront b1))).map (step cfg · .frontFlush) := rfl
+  -- the pass of the second front timer closes the session: nobody keeps it open
+  have hquiet : m3.streams.any (keepsOpen cfg) = false := by
+    rw [List.any_eq_false]
+    intro x hx
+    rw [h3] at hx
+    simp only [List.mem_map] at hx
+    obtain ⟨x2, ⟨x1, ⟨x0, _, rfl⟩, rfl⟩, rfl⟩ := hx
+    simp [quiet_after]
+  have h3i : m3.streams[i]? =
+      some (step cfg (step cfg (step cfg s .frontFlush) (.timeoutFront b1)) .frontFlush) := by
+    rw [h3]; simp [List.getElem?_map, h]
+  have h4 : (Mux.step cfg m3 .frontTimeout).streams =
+      m3.streams.map (step cfg · (.timeoutFront (!(m3.streams.any (keepsOpen cfg))))) := rfl
+  refine ⟨_, ?_, live_after cfg s b1 hw hrecv⟩
+  rw [hrun, h4, hquiet]
+  simp [List.getElem?_map, h3i]
+
+/-! ### shape of the outcome over whole histories -/
+
+/-- Per-step hypotheses that exclude exactly the open findings about the outcome's shape:
+    (1) what sozu has buffered for the client of a linked stream is written before anything
+        else happens to that stream (otherwise: `unflushed-response-dropped-silent-close`);
+    (2) a backend answers only a request it was sent, and no chunked response announces
+        `Connection: close` (otherwise: `default-answer-written-into-started-response`);
+    (3) the backend's bytes stop parsing only before a response head was accepted. -/
+def calmEv (s : Stream) (e : Ev) : Bool :=
+  (!(s.isLinked && s.pending) || e == .frontFlush) &&
+  (match e with
+   | .backHead bs cc _ => s.frontConsumed && !(bs == .chunked && cc)
+   | .backParseError => s.frontConsumed && s.phase == .initial
+   | _ => true)
+
+/-- a history in which every step is calm (computable, so concrete histories are checked
+    by `decide`) -/
+def calm (cfg : Cfg) : Stream → List Ev → Bool
+  | _, [] => true
+  | s, e :: es => calmEv s e && calm cfg (step cfg s e) es
+
+abbrev Calm (cfg : Cfg) (s : Stream) (es : List Ev) : Prop := calm cfg s es = true
+
+/-- the same as three implications -/
+def CalmEv (s : Stream) (e : Ev) : Prop :=
+  (s.isLinked = true → s.pending = true → e = .frontFlush) ∧
+  (∀ bs cc nb, e = .backHead bs cc nb → s.frontConsumed = true ∧ ¬(bs = .chunked ∧ cc = true)) ∧
+  (e = .backParseError → s.frontConsumed = true ∧ s.phase = .initial)
+
+theorem calmEv_spec (s : Stream) (e : Ev) (h : calmEv s e = true) : CalmEv s e := by
+  unfold calmEv at h
+  refine ⟨?_, ?_, ?_⟩
+  · intro hl hp
+    simp [hl, hp] at h
+    exact h.1
+  · intro bs cc nb he
+    subst he
+    simp at h
+    refine ⟨h.2.1, ?_⟩
+    rintro ⟨rfl, rfl⟩
+    simp at h
+  · intro he
+    subst he
+    simp at h
+    exact ⟨h.2.1, h.2.2⟩
+
+/-- invariant of calm histories -/
+def AInv (s : Stream) : Prop :=
+  (s.outcome = none → s.started = s.backConsumed) ∧
+  (s.outcome = none → s.phase = .initial → s.pending = false ∧ s.started = false ∧ s.kaBackend = true) ∧
+  (s.outcome = none → s.phase ≠ .initial →
+    s.frontConsumed = true ∧ s.isLinked = true ∧ (s.started = true ∨ s.pending = true) ∧
+    s.phase ≠ .error ∧ (s.bodySize = .chunked → s.kaBackend = true)) ∧
+  (∀ o, s.outcome = some o → Shape o)
+
+theorem ainv_init : AInv Stream.init := by simp [AInv, Stream.init]
+
+theorem ainv_step (cfg : Cfg) (s : Stream) (e : Ev) (hw : WF s) (hc : CalmEv s e) (h : AInv s) :
+    AInv (step cfg s e) := by
+  obtain ⟨a1, a2, a3, sh⟩ := h
+  obtain ⟨c1, c2, c3⟩ := hc
+  cases hout : s.outcome with
+  | some o =>
+    have hu : s.st = .unlinked := hw.1 (by simp [hout])
+    have := step_unlinked cfg s e hu
+    refine ⟨?_, ?_, ?_, ?_⟩
+    · intro hn; rw [this.2, hout] at hn; simp at hn
+    · intro hn; rw [this.2, hout] at hn; simp at hn
+    · intro hn; rw [this.2, hout] at hn; simp at hn
+    · intro o' ho'; rw [this.2] at ho'; exact sh o' ho'
+  | none =>
+    have b1 := a1 hout
+    have b2 := a2 hout
+    have b3 := a3 hout
+    have hlive : s.st ≠ .unlinked := by
+      intro hu; have := hw.2 hu; simp [hout] at this
+    clear sh hw a1 a2 a3
+    rcases s with ⟨st, att, fc, ph, bs, be, ka, kf, bc, pe, sr, oc⟩
+    rcases cfg with ⟨h2⟩
+    simp only at hout b1 b2 b3 hlive c1 c2 c3
+    subst hout b1
+    unfold AInv
+    cases e with
+    | reqParsed ok =>
+      cases st <;> cases ok <;> cases ph <;> simp_all [step, Stream.isLinked, setDefault, Shape]
+    | connect r =>
+      cases st <;> cases r <;> cases ph <;>
+        simp_all [step, Stream.isLinked, setDefault, Shape] <;> split <;> simp_all [Shape]
+    | reqForwarded => cases st <;> cases ph <;> simp_all [step, Stream.isLinked]
+    | backHead bs' cc nb =>
+      have := c2 bs' cc nb rfl
+      cases st <;> cases ph <;> cases nb <;> cases cc <;> simp_all [step, Stream.isLinked]
+    | backData => cases st <;> cases ph <;> simp_all [step, Stream.isLinked]
+    | backBodyEnd => cases st <;> cases ph <;> simp_all [step, Stream.isLinked]
+    | backParseError =>
+      have := c3 rfl
+      cases st <;> cases ph <;>
+        simp_all [step, Stream.isLinked, serverEndStream, Stream.decision, endStreamDecision,
+          Phase.isMain, setDefault, Shape]
+    | backEof =>
+      cases st <;> cases ph <;> cases ka <;> cases bs <;>
+        simp_all [step, Stream.isLinked, terminateCloseDelimited]
+    | backHup =>
+      cases st with
+      | idle => clear c1 c2 c3; cases ph <;> simp_all [step, Stream.isLinked]
+      | link => clear c1 c2 c3; cases ph <;> simp_all [step, Stream.isLinked]
+      | unlinked => exact absurd rfl hlive
+      | linked tok =>
+        have hpe : pe = false := by
+          cases pe with
+          | false => rfl
+          | true => exact absurd (c1 rfl rfl) (by simp)
+        subst hpe
+        clear c1 c2 c3
+        cases ph <;> cases ka <;> cases fc <;> cases h2 <;>
+          simp_all [step, Stream.isLinked, serverEndStream, Stream.decision, endStreamDecision,
+            Phase.isMain, setDefault, forceTerminate, Shape]
+    | frontFlush =>
+      cases st <;> cases ph <;> cases pe <;> simp_all [step, Stream.isLinked, Shape]
+    | timeoutFront may =>
+      cases st <;> cases ph <;> cases pe <;> cases sr <;> cases may <;> cases h2 <;>
+        simp_all [step, Stream.isLinked, setDefault, forceTerminate, Shape]
+    | timeoutBack =>
+      cases st <;> cases ph <;> cases pe <;> cases sr <;>
+        simp_all [step, Stream.isLinked, setDefault, forceTerminate, Shape]
+
+theorem ainv_run (cfg : Cfg) (es : List Ev) (s : Stream) (hw : WF s) (hc : Calm cfg s es)
+    (h : AInv s) : AInv (run cfg s es) := by
+  induction es generalizing s with
+  | nil => exact h
+  | cons e es ih =>
+    have hc2 : (calmEv s e && calm cfg (step cfg s e) es) = true := hc
+    have hc' : calmEv s e = true ∧ calm cfg (step cfg s e) es = true := by
+      simpa [Bool.and_eq_true] using hc2
+    exact ih _ (wf_step cfg s e hw) hc'.2 (ainv_step cfg s e hw (calmEv_spec s e hc'.1) h)
+
+/-! ### proofs of the property theorems stated in `Props.lean` -/
+
+theorem default_status_from_table (cfg : Cfg) (es : List Ev) (n : Nat) (a : Bool)
+    (h : (run cfg Stream.init es).outcome = some (.default n a)) : ∃ c, n = statusOf c := by
+  have key : ∀ (es : List Ev) (s : Stream),
+      (∀ n a, s.outcome = some (.default n a) → ∃ c, n = statusOf c) →
+      ∀ n a, (run cfg s es).outcome = some (.default n a) → ∃ c, n = statusOf c := by
+    intro es
+    induction es with
+    | nil => intro s hs; exact hs
+    | cons e es ih =>
+      intro s hs
+      apply ih
+      intro n a
+      cases e with
+      | reqParsed ok =>
+        simp only [step]; split
+        · split
+          · exact hs n a
+          · intro h; simp at h; exact ⟨_, h.1.symm⟩
+        · exact hs n a
+      | connect r =>
+        simp only [step]; split
+        · split
+          · intro h; simp at h; exact ⟨_, h.1.symm⟩
+          · cases r with
+            | err c => intro h; simp [setDefault] at h; exact ⟨_, h.1.symm⟩
+            | linked tok => exact hs n a
+        · exact hs n a
+      | reqForwarded => simp only [step]; split <;> exact hs n a
+      | backHead bs cc nb => simp only [step]; split <;> exact hs n a
+      | backData => simp only [step]; split <;> exact hs n a
+      | backBodyEnd => simp only [step]; split <;> exact hs n a
+      | backParseError =>
+        simp only [step]; split
+        · unfold serverEndStream; split
+          · intro h; simp at h
+          · split <;> (intro h; simp at h)
+          · intro h; simp at h
+          · intro h; simp at h; exact ⟨_, h.1.symm⟩
+          · exact hs n a
+        · exact hs n a
+      | backEof =>
+        simp only [step]; split
+        · unfold terminateCloseDelimited; split <;> exact hs n a
+        · exact hs n a
+      | backHup =>
+        simp only [step]; split
+        · unfold serverEndStream; split
+          · intro h; simp at h
+          · split <;> (intro h; simp at h)
+          · intro h; simp at h
+          · intro h; simp at h; exact ⟨_, h.1.symm⟩
+          · exact hs n a
+        · exact hs n a
+      | frontFlush =>
+        simp only [step]; split
+        · split
+          · intro h; simp at h
+          · exact hs n a
+        · exact hs n a
+      | timeoutFront may =>
+        simp only [step]; split
+        · split
+          · exact hs n a
+          · intro h; simp at h; exact ⟨_, h.1.symm⟩
+        · intro h; simp at h; exact ⟨_, h.1.symm⟩
+        · split
+          · intro h; simp at h; exact ⟨_, h.1.symm⟩
+          · split
+            · split
+              · intro h; simp at h
+              · exact hs n a
+            · split
+              · exact hs n a
+              · intro h; simp at h
+        · exact hs n a
+      | timeoutBack =>
+        simp only [step]; split
+        · split
+          · exact hs n a
+          · split
+            · intro h; simp at h; exact ⟨_, h.1.symm⟩
+            · intro h; simp at h
+        · exact hs n a
+  exact key es Stream.init (by simp [Stream.init]) n a h
+
+theorem exactly_one_outcome_stream (cfg : Cfg) (es es' : List Ev)
+    (hrecv : cfg.frontH2 = true → (run cfg Stream.init es).st ≠ .idle) :
+    (∀ o, (run cfg Stream.init es).outcome = some o →
+        (run cfg Stream.init (es ++ es')).outcome = some o) ∧
+    ((run cfg Stream.init es).outcome.isSome ↔ (run cfg Stream.init es).st = .unlinked) ∧
+    (run cfg Stream.init (es ++ [.frontFlush, .timeoutFront true])).outcome.isSome := by
+  have hw : WF (run cfg Stream.init es) := wf_run cfg es _ wf_init
+  refine ⟨?_, hw, ?_⟩
+  · intro o ho
+    have hu : (run cfg Stream.init es).st = .unlinked := hw.1 (by simp [ho])
+    rw [run_append, (run_unlinked cfg es' _ hu).2, ho]
+  · rw [run_append]
+    generalize run cfg Stream.init es = s at hw hrecv
+    by_cases hu : s.st = .unlinked
+    · rw [(run_unlinked cfg _ s hu).2]; exact hw.2 hu
+    · show (step cfg (step cfg s .frontFlush) (.timeoutFront true)).outcome.isSome = true
+      rcases flush_cases cfg s with ⟨h1, h2, _⟩ | ⟨h1, h2, _⟩
+      · rw [(step_unlinked cfg _ _ h1).2]; exact h2
+      · apply front_timer_terminal
+        · rw [h1]; exact hu
+        · intro hc; rw [h1]; exact hrecv hc
+        · exact h2
+
+theorem bounded_by_timeouts (cfg : Cfg) (s : Stream) (hlive : s.st ≠ .unlinked)
+    (hrecv : cfg.frontH2 = true → s.st ≠ .idle) :
+    armed s ≠ [] ∧
+    (delivering s = false →
+        .timeoutFront true ∈ armed s ∧ (step cfg s (.timeoutFront true)).outcome.isSome) ∧
+    (s.isLinked = true → s.phase = .initial ∨ s.phase = .body →
+        .timeoutBack ∈ armed s ∧ (step cfg s .timeoutBack).outcome.isSome) ∧
+    (delivering s = true → (run cfg s [.frontFlush, .timeoutFront true]).outcome.isSome) := by
+  refine ⟨?_, ?_, ?_, ?_⟩
+  · cases hst : s.st <;> simp_all [armed]
+  · intro hd
+    refine ⟨?_, front_timer_terminal cfg s hlive hrecv hd⟩
+    cases hst : s.st <;> simp_all [armed]
+  · intro hl hph
+    obtain ⟨tok, ht⟩ := (isLinked_iff s).1 hl
+    refine ⟨by simp [armed, ht], ?_⟩
+    cases hb : s.backConsumed <;> rcases hph with h | h <;> simp [step, hl, h, hb]
+  · intro _
+    show (step cfg (step cfg s .frontFlush) (.timeoutFront true)).outcome.isSome = true
+    rcases flush_cases cfg s with ⟨h1, h2, _⟩ | ⟨h1, h2, _⟩
+    · rw [(step_unlinked cfg _ _ h1).2]; exact h2
+    · apply front_timer_terminal
+      · rw [h1]; exact hlive
+      · intro hc; rw [h1]; exact hrecv hc
+      · exact h2
+
+theorem mux_isolation (cfg : Cfg) (m : Mux) :
+    (∀ (i : Nat) (e : Ev) (j : Nat), j ≠ i → (Mux.step cfg m (.at i e)).streams[j]? = m.streams[j]?) ∧
+    (∀ (tok j : Nat) (s : Stream), m.streams[j]? = some s → s.isLinkedTo tok = false →
+        (Mux.step cfg m (.backendHup tok)).streams[j]? = some s ∧
+        (Mux.step cfg m (.backendEof tok)).streams[j]? = some s ∧
+        (Mux.step cfg m (.backendTimeout tok)).streams[j]? = some s) ∧
+    (∀ ev, (Mux.step cfg m ev).streams.length = m.streams.length) := by
+  refine ⟨?_, ?_, ?_⟩
+  · intro i e j hji
+    simp only [Mux.step, List.getElem?_modify]
+    have : ¬ i = j := fun h => hji h.symm
+    simp [this]
+  · intro tok j s hj hl
+    simp [Mux.step, List.getElem?_map, hj, hl]
+  · intro ev
+    cases ev <;> simp [Mux.step]
+
+theorem failed_exchange_never_pooled_step (cfg : Cfg) (s : Stream) (e : Ev)
+    (hlive : s.outcome = none) (hne : e ≠ .timeoutBack)
+    (hp : pooledAfter cfg s e = true) :
+    ∃ bs, (step cfg s e).outcome = some (.relayed s.byEof bs) ∧ s.kaBackend = true ∧
+      s.phase = .terminated := by
+  rcases s with ⟨st, att, fc, ph, bs, be, ka, kf, bc, pe, sr, oc⟩
+  simp only at hlive; subst hlive
+  cases e with
+  | frontFlush =>
+    cases st <;> cases ph <;> cases pe <;> cases ka <;>
+      simp_all [pooledAfter, parksBackend, step, Stream.isLinked]
+  | timeoutBack => exact absurd rfl hne
+  | _ => simp [pooledAfter] at hp
+
+theorem mux_run_length (cfg : Cfg) (evs : List MEv) (m : Mux) :
+    (Mux.run cfg m evs).streams.length = m.streams.length := by
+  induction evs generalizing m with
+  | nil => rfl
+  | cons ev evs ih =>
+    have := (mux_isolation cfg m).2.2 ev
+    simpa [Mux.run, this] using ih (Mux.step cfg m ev)
+
+theorem mux_exactly_one_outcome (cfg : Cfg) (n : Nat) (h h' : List MEv) (i : Nat) (s : Stream)
+    (hs : (Mux.run cfg (Mux.init n) h).streams[i]? = some s)
+    (hrecv : cfg.frontH2 = true → s.st ≠ .idle) :
+    (∀ o, s.outcome = some o →
+        ∃ s', (Mux.run cfg (Mux.init n) (h ++ h')).streams[i]? = some s' ∧ s'.outcome = some o) ∧
+    (s.outcome.isSome ↔ s.st = .unlinked) ∧
+    (∃ s', (Mux.run cfg (Mux.init n) (h ++ settleEvents)).streams[i]? = some s' ∧
+        s'.outcome.isSome = true) := by
+  -- stream `i` exists from the start and only went through events of its own
+  have hi : i < n := by
+    have hlt : i < (Mux.run cfg (Mux.init n) h).streams.length := by
+      rcases Nat.lt_or_ge i (Mux.run cfg (Mux.init n) h).streams.length with hl | hl
+      · exact hl
+      · rw [List.getElem?_eq_none hl] at hs; cases hs
+    rw [mux_run_length] at hlt
+    simpa [Mux.init] using hlt
+  have h0 : (Mux.init n).streams[i]? = some Stream.init := by
+    simp [Mux.init, List.getElem?_replicate, hi]
+  obtain ⟨es, hes⟩ := mux_run_get cfg h (Mux.init n) i Stream.init h0
+  have hse : s = run cfg Stream.init es := by
+    rw [hs] at hes; exact Option.some.inj hes
+  have hw : WF s := hse ▸ wf_run cfg es _ wf_init
+  refine ⟨?_, hw, ?_⟩
+  · intro o ho
+    obtain ⟨es', hes'⟩ := mux_run_get cfg h' (Mux.run cfg (Mux.init n) h) i s hs
+    refine ⟨_, by rw [mux_run_append]; exact hes', ?_⟩
+    have hu : s.st = .unlinked := hw.1 (by simp [ho])
+    rw [(run_unlinked cfg es' s hu).2, ho]
+  · rw [mux_run_append]
+    exact mux_settle_get cfg _ i s hs hw hrecv
+
+/-! ### pooling over histories -/
+
+/-- `byEof` is only set on responses of backends that are not keep-alive -/
+def BInv (s : Stream) : Prop :=
+  (s.phase = .initial → s.kaBackend = true ∧ s.byEof = false) ∧ (s.byEof = true → s.kaBackend = false)
+
+theorem binv_step (cfg : Cfg) (s : Stream) (e : Ev) (h : BInv s) : BInv (step cfg s e) := by
+  rcases s with ⟨st, att, fc, ph, bs, be, ka, kf, bc, pe, sr, oc⟩
+  rcases cfg with ⟨h2⟩
+  unfold BInv at h ⊢
+  cases e with
+  | backHup =>
+    cases st <;> cases ph <;> cases ka <;> cases be <;> cases fc <;> cases h2 <;>
+      simp_all [step, Stream.isLinked, serverEndStream, Stream.decision, endStreamDecision,
+        Phase.isMain, setDefault, forceTerminate]
+  | backParseError =>
+    cases st <;> cases ph <;> cases ka <;> cases be <;> cases fc <;> cases h2 <;>
+      simp_all [step, Stream.isLinked, serverEndStream, Stream.decision, endStreamDecision,
+        Phase.isMain, setDefault, forceTerminate]
+  | backEof =>
+    cases st <;> cases ph <;> cases ka <;> cases be <;> cases bs <;>
+      simp_all [step, Stream.isLinked, terminateCloseDelimited]
+  | backHead bs' cc nb =>
+    cases st <;> cases ph <;> cases ka <;> cases be <;> cases cc <;> cases nb <;>
+      simp_all [step, Stream.isLinked]
+  | connect r =>
+    cases st <;> cases ph <;> cases ka <;> cases be <;> cases r <;>
+      simp_all [step, Stream.isLinked, setDefault] <;> split <;> simp_all
+  | reqParsed ok =>
+    cases st <;> cases ph <;> cases ka <;> cases be <;> cases ok <;>
+      simp_all [step, Stream.isLinked, setDefault]
+  | frontFlush =>
+    cases st <;> cases ph <;> cases ka <;> cases be <;> cases pe <;>
+      simp_all [step, Stream.isLinked]
+  | timeoutFront may =>
+    cases st <;> cases ph <;> cases ka <;> cases be <;> cases pe <;> cases bc <;> cases may <;> cases h2 <;>
+      simp_all [step, Stream.isLinked, setDefault, forceTerminate]
+  | timeoutBack =>
+    cases st <;> cases ph <;> cases ka <;> cases be <;> cases bc <;>
+      simp_all [step, Stream.isLinked, setDefault, forceTerminate]
+  | _ =>
+    cases st <;> cases ph <;> cases ka <;> cases be <;> simp_all [step, Stream.isLinked]
+
+theorem binv_run (cfg : Cfg) (es : List Ev) (s : Stream) (h : BInv s) : BInv (run cfg s es) := by
+  induction es generalizing s with
+  | nil => exact h
+  | cons e es ih => exact ih _ (binv_step cfg s e h)
+
+theorem failed_exchange_never_pooled (cfg : Cfg) (es : List Ev) (e : Ev)
+    (hne : e ≠ .timeoutBack)
+    (hp : pooledAfter cfg (run cfg Stream.init es) e = true) :
+    ∃ bs, (run cfg Stream.init (es ++ [e])).outcome = some (.relayed false bs) ∧
+      (run cfg Stream.init es).kaBackend = true ∧
+      (run cfg Stream.init es).phase = .terminated := by
+  have hw : WF (run cfg Stream.init es) := wf_run cfg es _ wf_init
+  have hb : BInv (run cfg Stream.init es) := binv_run cfg es _ (by simp [BInv, Stream.init])
+  have hlive : (run cfg Stream.init es).outcome = none := by
+    cases ho : (run cfg Stream.init es).outcome with
+    | none => rfl
+    | some o =>
+      have hu := hw.1 (by simp [ho])
+      simp [pooledAfter, not_linked_of_unlinked hu] at hp
+  obtain ⟨bs, h1, h2, h3⟩ := failed_exchange_never_pooled_step cfg _ e hlive hne hp
+  have hbe : (run cfg Stream.init es).byEof = false := by
+    cases hbe : (run cfg Stream.init es).byEof with
+    | false => rfl
+    | true => have := hb.2 hbe; rw [h2] at this; cases this
+  refine ⟨bs, ?_, h2, h3⟩
+  rw [run_append]
+  show (step cfg (run cfg Stream.init es) e).outcome = _
+  rw [h1, hbe]
+
 end Sozu.Answers
